@@ -522,6 +522,11 @@ class RGen:
                 outs.append(vinfo(v, k))
         if t.flag("output_aliases_input", 6):
             outs.append(vinfo("x1", "F23"))
+        if self.gen >= 4 and outs and t.flag("output_listed_twice", 5):
+            # the same value listed twice among the graph outputs (accepted by the checker)
+            dup = onnx.ValueInfoProto()
+            dup.CopyFrom(outs[t.pick(len(outs))])
+            outs.append(dup)
         if t.flag("identity_input_to_output", 5):
             nodes.append(oh.make_node("Identity", [["x0", "x1"][t.pick(2)]], ["id_out"], name=self.nname("Identity")))
             outs.append(vinfo("id_out", "F23"))
